@@ -375,6 +375,16 @@ def run(ck):
                             "modifies is initialised on every path returning LZMA_OK")
     reinit.check_init_consistency(ck, prog, "C06-INITCONS", skip_files=("stream_encoder_mt.c", "stream_decoder_mt.c"))
     ck.floor("C06-INITCONS", 40)
+    from . import C13
+    C13.check_provenance(ck, prog, None, table=[
+        ("mf:keep-after", "liblzma", "lz_encoder_prepare", "lz_encoder.c", "keep_size_after",
+         [("lzma_lz_options", "after_size"), ("lzma_lz_options", "match_len_max")], [("lzma_lz_options", "nice_len")],
+         "match finders read up to match_len_max bytes ahead of read_pos: that many bytes (plus what the encoder asks "
+         "for) must stay in the window after every move, whatever chunking filled it"),
+        ("mf:keep-before", "liblzma", "lz_encoder_prepare", "lz_encoder.c", "keep_size_before",
+         [("lzma_lz_options", "before_size"), ("lzma_lz_options", "dict_size")], [],
+         "the whole dictionary stays addressable behind read_pos after a window move"),
+    ], rule="C06-PROV", floor=2)
     ck.rule("C06-APPLY", "an amount measured in this call (bytes used, padding found) is applied to the persistent member "
                          "it updates on every way out that the caller continues from")
     reinit.check_local_applied(ck, prog, "C06-APPLY")
